@@ -36,6 +36,7 @@ type GenOpts struct {
 	BiasMoves bool
 	Counts    bool // readdir with count limits (C13)
 	NoAttrs   bool
+	Intruder  bool // C05: during some batched archive calls another writer appends an end-of-archive marker to the tape
 	Late      bool // C02: a handle left idle while another handle rewrites the file, then written and closed
 	Twins     bool // batched members all carry ONE size, mode and modification time: names re-used after a move or delete get records whose metadata is identical to the earlier entry's, only content and position differ
 	Exotic    bool // unusual names, path spellings, owners, timestamps, permission values, deeper trees
@@ -536,6 +537,11 @@ func (g *Gen) next(t Tree) Op {
 			if !ok || r.Intn(10) == 0 {
 				e = g.missingPath(t)
 			}
+			if ent, ok2 := t[e]; ok2 && ent.Mtime > 0 && ent.Atime > 0 && r.Intn(3) == 0 {
+				// the same seconds as the entry's current times, other fractions of a second (or none)
+				frac := func() int64 { return []int64{0, 1, 125000000, 500000000, 999999999, int64(r.Intn(1000000000))}[r.Intn(6)] }
+				return Op{K: "chtimes", A: e, At: ent.Atime/1e9*1e9 + frac(), Mt: ent.Mtime/1e9*1e9 + frac()}
+			}
 			return Op{K: "chtimes", A: e, At: (1500000000 + int64(r.Intn(100000000))) * 1e9, Mt: (1500000000 + int64(r.Intn(100000000))) * 1e9}
 		case "stat":
 			if e, ok := g.existing(t); ok && r.Intn(5) != 0 {
@@ -600,6 +606,9 @@ func (g *Gen) next(t Tree) Op {
 			}
 			if g.o.Twins {
 				return Op{K: "archive", Members: ms, DSeed: r.Uint64(), Mt: 1600000000}
+			}
+			if g.o.Intruder && r.Intn(5) == 0 {
+				return Op{K: "archive", Members: ms, DSeed: r.Uint64(), Flag: 1}
 			}
 			return Op{K: "archive", Members: ms, DSeed: r.Uint64()}
 		case "update":
